@@ -96,6 +96,8 @@ func c33GenSteps(r *rand.Rand) []vfStep {
 		switch k := r.Intn(20); {
 		case k < 3:
 			steps = append(steps, vfStep{Kind: "snap", Trail: uint64(r.Intn(3))})
+		case k < 4 && r.Intn(2) == 0:
+			steps = append(steps, vfStep{Kind: "badload", Bad: vfBadKinds[r.Intn(len(vfBadKinds))]})
 		case k < 4:
 			var d vfDB
 			for p := int64(1); p <= 4; p++ {
@@ -224,6 +226,24 @@ func c33Corpus() []c33Input {
 		}
 		for _, p := range c33Points {
 			out = append(out, c33Input{FK: true, NoSnapOnClose: true, Steps: steps, PeersKind: "self", Peers: self, Faults: []c33Fault{{Kind: "crash", At: p}}})
+		}
+	}
+	// a load every node refused, at each position relative to the newest snapshot, the log really replayed
+	for i, bad := range vfBadKinds {
+		after := []vfStep{{Kind: "schema"},
+			{Kind: "req", Stmts: []vfStmt{{K: "insp", ID: 1}, {K: "insc", ID: 1, PID: 1}}},
+			{Kind: "snap", Trail: uint64(i % 2)},
+			{Kind: "req", Stmts: []vfStmt{{K: "insp", ID: 2}}},
+			{Kind: "badload", Bad: bad},
+			{Kind: "req", Stmts: []vfStmt{{K: "insc", ID: 2, PID: 2}}}}
+		before := []vfStep{{Kind: "schema"},
+			{Kind: "req", Stmts: []vfStmt{{K: "insp", ID: 1}}},
+			{Kind: "badload", Bad: bad},
+			{Kind: "snap", Trail: 1},
+			{Kind: "req", Stmts: []vfStmt{{K: "insc", ID: 1, PID: 1}}}}
+		noSnap := []vfStep{{Kind: "schema"}, {Kind: "req", Stmts: []vfStmt{{K: "insp", ID: 3}}}, {Kind: "badload", Bad: bad}}
+		for _, st := range [][]vfStep{after, before, noSnap} {
+			out = append(out, c33Input{FK: i%2 == 0, NoSnapOnClose: true, Steps: st, PeersKind: "self", Peers: self})
 		}
 	}
 	// the newest snapshot is an incremental one when the attempt fails
@@ -452,6 +472,9 @@ func c33Run(w *vWriter, in c33Input) {
 		if st.Kind == "load" {
 			nload++
 		}
+		if st.Kind == "badload" {
+			vc.Tags = append(vc.Tags, "rejected-load:"+st.Bad)
+		}
 		cmds[idx] = st
 	}
 	live, err := vfDump(s)
@@ -678,6 +701,12 @@ func c33Run(w *vWriter, in c33Input) {
 			vc.OracleFail += fmt.Sprintf(" after the failed attempt(s) %v", attempts)
 		}
 		vc.Sig = fmt.Sprintf("C33:%s-data-differs:%s:%s%s", what, kind, fkTag, retried)
+		for _, st := range in.Steps {
+			if st.Kind == "badload" {
+				vc.Sig += ":rejected-load-in-history"
+				break
+			}
+		}
 	case valid && vJSON(conf) != vJSON(peers):
 		vc.OracleFail = fmt.Sprintf("configuration after recovery %s, peers file %s", vJSON(conf), raw)
 		vc.Sig = "C33:configuration-differs-from-peers-file"
@@ -725,7 +754,7 @@ func TestVerif_C33(t *testing.T) {
 	}
 	rng := vRand()
 	ins := c33Corpus()
-	n := vN(60, 1500)
+	n := vN(55, 1500)
 	for i := 0; i < n; i++ {
 		ins = append(ins, c33Gen(rng))
 	}
